@@ -670,6 +670,14 @@ def c17(ctx: Ctx) -> None:
               'the awaitable is submitted to the wrong loop / wrapped so that its result or exception changes',
               construct=construct_key('run_aw_threadsafe', 'bridge'))
     hs = [n for n in g.nodes if n.kind == 'except' and not n.meta.get('deferred')]
+    # handlers in the worker (the function run by the executor): allowed only when every path out of them is a bare re-raise
+    for h_ in [n for n in g.nodes if n.kind == 'except' and n.meta.get('deferred')]:
+        bare = [n for n in g.nodes if n.kind == 'raise' and getattr(n.ast, 'exc', None) is None]
+        w_ = must_pass(g, [h_], [g.exit, g.raise_exit] + [n for n in g.nodes if n.kind in ('return', 'inline_return')], bare)
+        ctx.check('C17-R4', f'worker handler except {norm(h_.ast.type) if h_.ast.type else "(bare)"} re-raises unchanged', g.loc(h_), w_ is None and bool(bare),
+                  'what the awaitable raised reaches the caller as it is', 'a handler around running the awaitable replaces or swallows its exception: '
+                  'the caller no longer gets exactly the awaitable\'s outcome', witness=render(g, w_),
+                  construct=construct_key('ensure_aw', 'worker handler changes the outcome'))
     # (that every return yields the awaited value itself is part of R1's path classification)
     nonawait_returns = []
     ctx.check('C17-R4', f'ensure_aw: no handler between the awaitable and the caller ({len(hs)} handlers)', f'{A}:{ea.lineno}',
@@ -1089,6 +1097,26 @@ def c19(ctx: Ctx) -> None:
     SPLITTERS = ('split', 'rsplit', 'partition', 'rpartition', 'find', 'rfind', 'index', 'rindex')
     tryp = next((c for c in f.children if c.kind == 'function' and any(
         isinstance(x, ast.Call) and isinstance(x.func, ast.Name) and x.func.id == parse_p for x in ast.walk(c.node))), None)
+    tryp_param = None          # when the guarded parser is a module-level helper: the parameter through which it receives the parser
+    if tryp is None:
+        used = {x.id for x in ast.walk(f.node) if isinstance(x, ast.Name)}
+        for c in u.module_scope.children:
+            if c.kind == 'function' and c.name in used and c is not f and any(
+                    isinstance(x, ast.Call) and isinstance(x.func, ast.Name) and x.func.id == 'isinstance' for x in ast.walk(c.node)):
+                called_params = [x.func.id for x in ast.walk(c.node) if isinstance(x, ast.Call) and isinstance(x.func, ast.Name) and x.func.id in c.params]
+                if called_params:
+                    tryp, tryp_param = c, called_params[0]
+        if tryp is not None:
+            # every use inside parse_to_dict hands on the caller's parser
+            pidx = list(tryp.params).index(tryp_param)
+            for x in ast.walk(f.node):
+                if isinstance(x, ast.Call) and isinstance(x.func, ast.Name) and x.func.id == tryp.name:
+                    got = x.args[pidx] if len(x.args) > pidx else next((k.value for k in x.keywords if k.arg == tryp_param), None)
+                    ctx.check('C19-R4', f'{norm(x)} hands the parser on', f'{PA}:{x.lineno}', isinstance(got, ast.Name) and got.id == parse_p,
+                              'the guarded parser uses the parser the caller chose',
+                              f'this use of {tryp.name} does not pass `{parse_p}`: the helper falls back to its own default, so a custom parser is ignored '
+                              'here (keys are parsed with literal_eval although the caller\'s parser would leave them alone)',
+                              construct=construct_key('parse_to_dict', 'parser not handed on', x))
     # the pair parser is the nested function every item goes through: the callable mapped over the items in the result
     pair = None
     fkids = [c for c in f.children if c.kind == 'function']
@@ -1306,7 +1334,7 @@ def c19(ctx: Ctx) -> None:
                   construct=construct_key(unit.rel, 'dangerous calls', sorted({h[1] for h in hits})), examined=calls)
     # the only callee applied to input text is the parse parameter
     gt = build(tryp, p, inline_nested=False)
-    pcalls = [n for n in gt.nodes if n.kind == 'call' and isinstance(n.ast.func, ast.Name) and n.ast.func.id == parse_p]
+    pcalls = [n for n in gt.nodes if n.kind == 'call' and isinstance(n.ast.func, ast.Name) and n.ast.func.id == (tryp_param or parse_p)]
     xp = tryp.params[0]
     # R4
     for pc in pcalls:
@@ -1324,6 +1352,14 @@ def c19(ctx: Ctx) -> None:
                   'handler covers Exception and returns the input', 'a parser failure escapes (or the value is lost)', witness=render(gt, w),
                   construct=construct_key(tryp.qualname, 'parse failure'))
     rets = [n for n in gt.nodes if n.kind == 'return']
+    # ... and every string is handed to the parser: nothing but `isinstance(x, str)` decides whether parsing is tried
+    isb_ = [n for n in gt.nodes if n.kind == 'branch' and norm(n.meta['test']) == f'isinstance({xp}, str)']
+    for b_ in isb_:
+        te_ = [e for e in gt.succ[b_.id] if e.label == 'true']
+        w_ = must_pass(gt, [], [gt.exit, gt.raise_exit], pcalls, start_edges=te_) if te_ else None
+        ctx.check('C19-R4', f'{tryp.name}: every string reaches {parse_p}({xp})', gt.loc(b_), w_ is None and bool(pcalls) and bool(te_),
+                  'a string value is always offered to the parser', 'some strings skip the parser: a value that is a literal (None, True, a number ...) '
+                  'stays a string', witness=render(gt, w_), construct=construct_key(tryp.qualname, 'strings skipping the parser'))
     # the value handed to the parser and the value returned on failure are the *argument*, not something derived from it
     from ..dataflow import rdefs as _rdefs19
     for n_ in pcalls + [r_ for r_ in rets if r_.ast.value is not None and norm(r_.ast.value) == xp]:
@@ -1403,6 +1439,9 @@ def c19(ctx: Ctx) -> None:
     def classify_elem(e: ast.AST, a: str, b: bool) -> str:
         if isinstance(e, ast.Name) and e.id == a:
             return 'raw'
+        if isinstance(e, ast.Call) and isinstance(e.func, ast.Name) and e.func.id == tryp.name and tryp_param is not None \
+                and e.args and norm(e.args[0]) == a:
+            return 'parsed'       # (whether the parser is handed on is checked per call site under R4)
         if isinstance(e, ast.Call) and len(e.args) == 1 and not e.keywords and norm(e.args[0]) == a:
             k = classify_fn(e.func, b)
             return {'parse': 'parsed', 'identity': 'raw'}.get(k, '?')
